@@ -135,3 +135,27 @@ func VerifH_C12_ResidualSplit(w, h, bits, n int) {
 	}
 	verifapi.Cover(len(td1) >= 16 && n > 1, "parallel selection with several workers")
 }
+
+// VerifH_C10_EncForkJoin: fork/join regions of the lossless ENCODER on concrete pictures with GOMAXPROCS=n
+// (race_check: per-goroutine read/write footprints must be disjoint on written cells).
+//   which 0: ResidualImage (predictor selection workers)   1: ColorSpaceTransform (cross-colour workers)
+func VerifH_C10_EncForkJoin(which, w, h, n int) {
+	verifapi.Procs(n)
+	px := make([]uint32, w*h)
+	s := uint32(w*131 + h)
+	for i := range px {
+		s = s*1664525 + 1013904223
+		px[i] = 0xff000000 | (s>>8)&0xffffff
+		if i%3 == 0 && i >= w {
+			px[i] = px[i-w]
+		}
+	}
+	switch which {
+	case 0:
+		td, _ := ResidualImage(px, w, h, 2, 75, nil)
+		verifapi.Cover(len(td) >= 16, "parallel predictor selection")
+	case 1:
+		td := ColorSpaceTransform(px, w, h, 2, 75)
+		verifapi.Cover(len(td) >= 16, "parallel cross-colour search")
+	}
+}
